@@ -139,3 +139,25 @@ let cop_of = function
 let cval_out = function CNone -> "none" | CInt z -> string_of_z z | CBool b -> if b then "True" else "False"
 let env_out (e : (Pp.string * cval) list) =
   String.concat "," (List.map (fun (k, v) -> string_of_c k ^ "=" ^ cval_out v) e)
+
+(* ---- dispatch histories ---- *)
+let natv x = nat_of_int (int_of_string (atom x))
+let rec int_of_nat = function O -> 0 | S n -> 1 + int_of_nat n
+let dop_of = function
+  | L [A "rc"; c; p] -> RegClass (natv c, natv p)
+  | L [A "rn"; c; p] -> RegName (natv c, natv p)
+  | L [A "rp"; q; p] -> RegPred (natv q, natv p)
+  | L [A "pr"; c] -> Print (natv c)
+  | L [A "ir"; c; cs; cd; rd] -> IsReg (natv c, boolv cs, boolv cd, boolv rd)
+  | _ -> failwith "dop"
+let dobs_out = function
+  | OUnit -> "-"
+  | OChosen (ByPrinter p) -> "P" ^ string_of_int (int_of_nat p)
+  | OChosen ByRepr -> "R"
+  | OBool None -> "E"
+  | OBool (Some true) -> "T"
+  | OBool (Some false) -> "F"
+let table_of (l : sexp list) : (int, int list) Hashtbl.t =
+  let t = Hashtbl.create 16 in
+  List.iter (function L (k :: vs) -> Hashtbl.replace t (int_of_string (atom k)) (List.map (fun v -> int_of_string (atom v)) vs)
+                    | _ -> failwith "table") l; t
